@@ -128,9 +128,26 @@ func main() {
 	cases = append(cases, limiterLastReadCase())
 	n = len(cases)
 
+	onlyLimited := os.Getenv("C01_DEBUG_ONLY_LIMITED") != "" // debugging aid only
 	run.Parallel(n, 12, func(c *h.Case) {
 		if c.Idx >= len(cases) {
 			return
+		}
+		if onlyLimited {
+			any := false
+			for _, p := range cases[c.Idx].Proxies {
+				any = any || p.Limit != ""
+			}
+			if !any {
+				return
+			}
+			var keep []proxyCfg
+			for _, p := range cases[c.Idx].Proxies {
+				if p.Limit != "" {
+					keep = append(keep, p)
+				}
+			}
+			cases[c.Idx].Proxies = keep
 		}
 		runCase(c, cases[c.Idx], servers[cases[c.Idx].Server])
 	})
@@ -599,12 +616,14 @@ func checkRate(cs *caseState, px *proxyRT) {
 	var cum int64
 	worst := 0.0
 	overStrict := false
+	var worstCum int64
+	var worstDt float64
 	for _, e := range evs {
 		cum += int64(e.n)
 		dt := float64(e.t-px.t0) / 1e9
 		bound := L + L*dt
 		if r := float64(cum) / bound; r > worst {
-			worst = r
+			worst, worstCum, worstDt = r, cum, dt
 		}
 		if float64(cum) > bound && float64(cum) <= bound*(1+rateSlack)+512 {
 			overStrict = true
@@ -627,6 +646,8 @@ func checkRate(cs *caseState, px *proxyRT) {
 	if worst > worstRatio {
 		worstRatio = worst
 		run.Set("rate_bound_worst_ratio", worst)
+		run.Set("rate_bound_worst_ratio_at", fmt.Sprintf("case %d proxy %s: kind=%s limit=%s/%dKB enc=%v comp=%v transport=%s, %d bytes at %.4f s (strict bound %.0f)",
+			cs.c.Idx, px.name, px.cfg.Kind, px.cfg.Limit, px.cfg.LKB, px.cfg.Enc, px.cfg.Comp, cs.cfg.A.Proto, worstCum, worstDt, L+L*worstDt))
 	}
 	worstRatioMu.Unlock()
 	run.Count("rate_bound_events", int64(len(evs)))
